@@ -59,15 +59,27 @@ def dims_small(N, r):
     return [[SMALL[(k + a) % N] for a in range(r)] for k in range(N)]
 
 
+def dims_mixed(N, r, sigma):
+    """primes on the first axis only, rotations of the small palette on the others"""
+    return [[sigma[k]] + [SMALL[(k + a) % N] for a in range(1, r)] for k in range(N)]
+
+
 def dim_families(N, r, thorough):
     """list of (tag, D) with D[k][a] the dimension of factor k on axis a"""
     out = [('small', dims_small(N, r))]
     sig = list(itertools.permutations(PAL, N))
-    if not thorough:
-        # quick tier: every ordered selection for rank 1; ascending / descending / one mixed for ranks 2, 3
-        if r > 1:
-            sig = [s for s in sig if list(s) == sorted(s) or list(s) == sorted(s, reverse=True)][:2] + sig[5:6]
-    out += [('prime', dims_prime(N, r, s)) for s in sig]
+    few = [s for s in sig if list(s) == sorted(s) or list(s) == sorted(s, reverse=True)][:2] + sig[5:6]
+    if r == 1:
+        prime = sig                                     # every ordered selection
+    elif not thorough:
+        prime = few if (r == 2 or N <= 2) else few[:1]
+    elif r == 2:
+        prime = sig if N <= 3 else few
+    else:
+        prime = sig if N <= 2 else ([s for s in sig if int(np.prod(s)) <= 42] if N == 3 else [])
+    out += [('prime', dims_prime(N, r, s)) for s in prime]
+    if r == 3 and N >= 3:
+        out += [('mixed', dims_mixed(N, r, s)) for s in (sig if thorough and N == 3 else few)]
     return out
 
 
@@ -316,11 +328,11 @@ def prop_check(c):
             if res[0] != 'ok' or res[1].shape != ref.shape or not np.array_equal(res[1], ref):
                 return ('tensor_transpose vs chain of permuted factors', 'c16-transpose-chain', 'order=%s' % (order,))
             return None
-        if all(0 <= o for o in order) or len(order) != n:
-            # repeated, too large or wrong number of entries
+        if all(0 <= o for o in order) and len(order) == n:
+            # repeated or too large entries
             msg = expect_exc(res, 'ValueError', 'order %s is not a permutation of range(%d)' % (order, n))
             return msg and ('transpose rejects order', 'c16-transpose-order-rejects', msg)
-        return None     # negative entries: undocumented, behaviour unspecified (corr only)
+        return None     # negative entries / wrong number of entries: undocumented, behaviour unspecified (corr only)
     if fn == 'equiv':
         return pauli_equiv_check(c)
     if fn == 'remap':
@@ -428,7 +440,9 @@ def enumerate_cases(thorough):
     for r in (1, 2, 3):
         for n, m in splits(tot):
             rng = range(-n - 1, n + 2)
-            for tag, D in dim_families(n + m, r, thorough):
+            fams = dim_families(n + m, r, thorough)
+            first = next((D for t, D in fams if t != 'small'), None)
+            for tag, D in fams:
                 Dn, Dm = D[:n], D[n:]
                 ad, idm = arr_dims_of(Dn, r), arr_dims_of(Dm, r)
                 for bv in bvars:
@@ -439,7 +453,7 @@ def enumerate_cases(thorough):
                         cases.append(dict(base, fn='merge', kind=kind, pos=list(pos), ins_dims=idm))
                     for p in rng:       # int position: all args in a row
                         cases.append(dict(base, fn='insert', kind='adm' if -n <= p <= n else 'badpos', pos=int(p)))
-                if tag == 'small' or (tag == 'prime' and D == dim_families(n + m, r, thorough)[1][1]):
+                if tag == 'small' or D is first:
                     base = dict(rank=r, fam=tag, bvar='none', Dn=Dn, Dm=Dm)
                     for what, bad in corrupt_dims(ad):
                         cases.append(dict(base, fn='insert', kind='baddims', what=what, pos=[0] * m, arr_dims=bad))
@@ -453,11 +467,12 @@ def enumerate_cases(thorough):
     for r in (1, 2, 3):
         for N in range(1, tot + 1):
             fams = dim_families(N, r, thorough)
+            first = next((D for t, D in fams if t != 'small'), None)
             for tag, D in fams:
                 ad = arr_dims_of(D, r)
                 for bv in ('none', 'arr'):
                     base = dict(fn='transpose', rank=r, fam=tag, bvar=bv, Dn=D, arr_dims=ad)
-                    if tag == 'small' or D == fams[1][1]:
+                    if tag == 'small' or D is first:
                         orders = list(itertools.product(range(-1, N + 1), repeat=N))
                         orders += [tuple(range(N - 1)), tuple(range(N)) + (0,)]
                     else:
